@@ -50,3 +50,35 @@ func init() {
 	addMutant(mutant{Name: "silent/deleterange-switch-as-if-else", Silent: true,
 		Edits: []edit{{"wal.go", "	switch {\n	// |min----max|\n	//               |first====last|", "	if max < first || min > last {\n		return nil\n	}\n	switch {\n	// |min----max|\n	//               |first====last|"}}})
 }
+
+func init() {
+	addMutant(mutant{Name: "verifier/hash-drops-term", Fire: []string{"VF-04"},
+		Edits: []edit{{"verifier/verifier.go", "	sum = fnv1a.AddUint64(sum, log.Term)\n", ""}}})
+	addMutant(mutant{Name: "verifier/hash-restarts-at-data", Fire: []string{"VF-04"},
+		Edits: []edit{{"verifier/verifier.go", "	sum = fnv1a.AddBytes64(sum, log.Data)", "	sum = fnv1a.AddBytes64(0, log.Data)"}}})
+	addMutant(mutant{Name: "verifier/second-hash-routine", Fire: []string{"ACC-04", "VF-04"},
+		Edits: []edit{{"verifier/store.go", "	checksum = checksumLog(checksum, log)\n	return checksum, startIdx, r, nil", "	checksum = fnv1a.AddUint64(checksum, log.Index)\n	return checksum, startIdx, r, nil"},
+			{"verifier/store.go", "	\"github.com/hashicorp/raft-wal/metrics\"\n)", "	\"github.com/hashicorp/raft-wal/metrics\"\n	\"github.com/segmentio/fasthash/fnv1a\"\n)"}}})
+	addMutant(mutant{Name: "verifier/getlog-shifted-index", Fire: []string{"VF-08"},
+		Edits: []edit{{"verifier/store.go", "	return s.s.GetLog(index, log)", "	return s.s.GetLog(index+1, log)"}}})
+	addMutant(mutant{Name: "verifier/firstindex-via-lastindex", Fire: []string{"VF-08"},
+		Edits: []edit{{"verifier/store.go", "	return s.s.FirstIndex()", "	return s.s.LastIndex()"}}})
+	addMutant(mutant{Name: "verifier/storelogs-swallows-inner-error", Fire: []string{"VF-08", "ORD-24"},
+		Edits: []edit{{"verifier/store.go", "	err := s.s.StoreLogs(logs)\n	if err != nil {\n		return err\n	}\n", "	s.s.StoreLogs(logs)\n"}}})
+	addMutant(mutant{Name: "verifier/overwrites-foreign-extensions", Fire: []string{"VF-09"},
+		Edits: []edit{{"verifier/store.go", "		if len(log.Extensions) == 0 {\n			// It's a new checkpoint and we must be the leader. Set our state.", "		if len(log.Extensions) >= 0 {\n			// It's a new checkpoint and we must be the leader. Set our state."}}})
+	addMutant(mutant{Name: "verifier/mutates-log-data", Fire: []string{"VF-09"},
+		Edits: []edit{{"verifier/store.go", "	if startIdx == 0 {\n		startIdx = log.Index\n	}", "	if startIdx == 0 {\n		startIdx = log.Index\n		log.Term = 0\n	}"}}})
+	addMutant(mutant{Name: "verifier/state-before-inner-write", Fire: []string{"ORD-24"},
+		Edits: []edit{{"verifier/store.go", "	err := s.s.StoreLogs(logs)\n	if err != nil {\n		return err\n	}\n\n	// Update the checksum state now logs are committed.\n	atomic.StoreUint64(&s.checksum, cs)\n", "	atomic.StoreUint64(&s.checksum, cs)\n	err := s.s.StoreLogs(logs)\n	if err != nil {\n		return err\n	}\n"}}})
+	addMutant(mutant{Name: "verifier/read-without-firstindex", Fire: []string{"ORD-24", "FD-08"},
+		Edits: []edit{{"verifier/verifier.go", "	first, err := s.s.FirstIndex()\n	if err != nil {\n		report.Err = fmt.Errorf(\"unable to verify log range %s: %w\", report.Range, err)\n		return\n	}\n	if first > report.Range.Start {\n		// We don't have enough logs to calculate this correctly.\n		report.Err = ErrRangeMismatch\n		return\n	}\n", ""}}})
+	addMutant(mutant{Name: "verifier/report-skipped-on-error", Fire: []string{"ORD-24"},
+		Edits: []edit{{"verifier/verifier.go", "		report.Elapsed = time.Since(st)\n		s.reportFn(report)", "		report.Elapsed = time.Since(st)\n		if report.Err == nil {\n			s.reportFn(report)\n		}"}}})
+	addMutant(mutant{Name: "verifier/blocking-handoff", Fire: []string{"ORD-25"},
+		Edits: []edit{{"verifier/store.go", "	select {\n	case s.verifyCh <- r:\n	default:\n		s.metrics.IncrementCounter(\"dropped_reports\", 1)\n	}", "	s.verifyCh <- r"}}})
+	addMutant(mutant{Name: "verifier/drop-not-counted", Fire: []string{"ORD-25"},
+		Edits: []edit{{"verifier/store.go", "	default:\n		s.metrics.IncrementCounter(\"dropped_reports\", 1)\n	}", "	default:\n	}"}}})
+	addMutant(mutant{Name: "verifier/report-from-storelogs", Fire: []string{"ORD-25"},
+		Edits: []edit{{"verifier/store.go", "	for _, r := range triggeredReports {\n		s.triggerVerify(r)\n	}", "	for _, r := range triggeredReports {\n		s.reportFn(r)\n	}"}}})
+}
